@@ -211,9 +211,9 @@ def cmd_table(args):
     for d in sorted(glob.glob(V + "/seeded-equivalent/*/")):
         m = json.load(open(d + "meta.json"))
         c = m.get("check", {})
-        erows.append("| %s | %s | %s |" % (os.path.basename(d.rstrip("/")), m.get("breaks", "")[:230].replace("|", "/").replace("\n", " "), "quiet (exit 0)" if c.get("quiet") else "**alarm** (exit %s: %s)" % (c.get("exit"), ", ".join(sorted(set(c.get("violations", []) or c.get("other", []))))[:100])))
+        erows.append("| %s | %s | %s |" % (os.path.basename(d.rstrip("/")), m.get("breaks", "")[:230].replace("|", "/").replace("\n", " "), ("quiet (exit 0)" + (" ‡" if c.get("note") else "")) if c.get("quiet") else "**alarm** (exit %s: %s)" % (c.get("exit"), ", ".join(sorted(set(c.get("violations", []) or c.get("other", []))))[:100])))
     if erows:
-        t += ("\n\n%d behaviour-preserving changes (the property still holds; the quick check must stay quiet), %d quiet:\n\n" % (len(erows), sum(1 for r in erows if "| quiet" in r))
+        t += ("\n\n%d behaviour-preserving changes (the property still holds; the quick check must stay quiet), %d quiet (‡ = quiet, but see the note in its meta.json):\n\n" % (len(erows), sum(1 for r in erows if "| quiet" in r))
               + "| id | what was changed | quick check |\n|---|---|---|\n" + "\n".join(erows))
     p = V + "/DESIGN.md"
     s = open(p).read()
